@@ -422,6 +422,84 @@ theorem parseFn_gotoR {u0 u1 : Nat} {s : SStmt} {st : Stmt} (h : parseFn u0 s = 
       · simp [PState.init] at h
       · exact h
 
+/-! ### a jump binds to the labelled statement of exactly its own name -/
+
+theorem labelPairs_sublist (st : Stmt) : ((labelPairs st).map (·.2)).Sublist (defs st) := by
+  induction st with
+  | seq a b iha ihb => simp only [labelPairs, defs, List.map_append]; exact List.Sublist.append iha ihb
+  | ifte c a b iha ihb => simp only [labelPairs, defs, List.map_append]; exact List.Sublist.append iha ihb
+  | block s ih => exact ih
+  | for_ i cn inc brk cont body ih =>
+    simp only [labelPairs, defs]
+    exact ih.trans (List.sublist_append_left _ _)
+  | doWhile brk cont body k ih =>
+    simp only [labelPairs, defs]
+    exact ih.trans (List.sublist_append_left _ _)
+  | switch_ w u k cs d brk body ih =>
+    simp only [labelPairs, defs]
+    exact ih.trans (List.sublist_append_left _ _)
+  | case_ l lo hi s ih => simp only [labelPairs, defs]; exact List.Sublist.cons _ ih
+  | default_ l s ih => simp only [labelPairs, defs]; exact List.Sublist.cons _ ih
+  | label l u s ih => simp only [labelPairs, defs, List.map_cons]; exact List.Sublist.cons_cons _ ih
+  | _ => simp [labelPairs, defs]
+
+theorem parseFn_defs_nodup {u0 u1 : Nat} {s : SStmt} {st : Stmt} (h : parseFn u0 s = .ok (st, u1)) : (defs st).Nodup := by
+  unfold parseFn at h
+  split at h
+  · cases h
+  · rename_i st0 σ1 hp
+    split at h
+    · cases h
+    · rename_i st' hr
+      simp only [Except.ok.injEq, Prod.mk.injEq] at h
+      obtain ⟨rfl, rfl⟩ := h
+      have A2 := parse_inv2 s _ st0 σ1 hp
+      have R := resolve_inv (defs st0) σ1.labels (fun p hp' => by
+        rcases A2.labels p hp' with h | h
+        · simp [PState.init] at h
+        · exact h) st0 _ hr
+      rw [R.defs]; exact A2.nodup
+
+theorem gotoR_names {R : Nat → Nat → Prop} {V : Prop} (st : Stmt) :
+    GotoR R V st → ∀ l ∈ jumpNames (erase st), ∃ t, R l t := by
+  induction st with
+  | seq a b iha ihb =>
+    intro h l hl
+    simp only [erase, jumpNames, List.mem_append] at hl
+    rcases hl with hl | hl
+    · exact iha h.1 l hl
+    · exact ihb h.2 l hl
+  | ifte c a b iha ihb =>
+    intro h l hl
+    simp only [erase, jumpNames, List.mem_append] at hl
+    rcases hl with hl | hl
+    · exact iha h.1 l hl
+    · exact ihb h.2 l hl
+  | block s ih => intro h l hl; exact ih h l hl
+  | for_ i cn inc brk cont body ih => intro h l hl; exact ih h l hl
+  | doWhile brk cont body k ih => intro h l hl; exact ih h l hl
+  | switch_ w u k cs d brk body ih => intro h l hl; exact ih h l hl
+  | case_ l' lo hi s ih => intro h l hl; exact ih h l hl
+  | default_ l' s ih => intro h l hl; exact ih h l hl
+  | label l' u s ih => intro h l hl; exact ih h l hl
+  | goto_ k t =>
+    intro h l hl
+    cases k with
+    | brk => simp [erase, jumpNames] at hl
+    | cont => simp [erase, jumpNames] at hl
+    | user l' =>
+      simp only [erase, jumpNames, List.mem_singleton] at hl
+      subst hl; exact ⟨t, h⟩
+  | gotoVal l' t =>
+    intro h l hl
+    simp only [erase, jumpNames, List.mem_singleton] at hl
+    subst hl; exact ⟨t, h.1⟩
+  | gotoN l' => intro h; exact absurd h (by simp [GotoR])
+  | gotoValN l' => intro h; exact absurd h (by simp [GotoR])
+  | skip => intro _ l hl; simp [erase, jumpNames] at hl
+  | marker k => intro _ l hl; simp [erase, jumpNames] at hl
+  | ret => intro _ l hl; simp [erase, jumpNames] at hl
+
 /-! ### named labels: `find` and the resolved label agree when the name is defined once -/
 
 theorem labelNames_erase (st : Stmt) : labelNames (erase st) = (labelPairs st).map (·.1) := by
